@@ -14,7 +14,7 @@ from vlib.kernel import KernelBuild, located_rules
 from . import _common, k01_truncate
 
 ID = "K61"
-SERVES = ["C10", "C01", "C13"]
+SERVES = ["C10", "C01", "C03", "C13"]
 TITLE = "setTokenValue binary folding: results of unsigned arithmetic are reduced modulo 2^N"
 
 HARNESS = r'''
